@@ -487,6 +487,7 @@ def c02(sc, V):
     f = []
     pids_of = {}          # spawn-name -> [pids]
     nostop = set()
+    rm_pending = []
     for s in V:
         if s.before.blocked:
             break
@@ -523,6 +524,19 @@ def c02(sc, V):
                         f.append({"sig": sig, "step": s.n,
                                   "msg": "watcher %s reported stopped but its workers %r are still %s" %
                                          (evn, surv, [s.snap.kernel[p][0] for p in surv])})
+        # a completed rm (its exclusive slot is free again) leaves no worker of the removed watcher behind
+        if s.cmd() == "rm" and not s.props().get("nostop") and isinstance(s.props().get("name"), str):
+            n = s.props().get("name").lower()
+            wb = next((w for w in s.before.watchers if w["name"].lower() == n), None)
+            if wb is not None and n in [x.lower() for x in s.before.names] and n not in [x.lower() for x in s.snap.names]:
+                rm_pending.append((res_name(wb["name"]), [q[0] for q in wb["procs"]]))
+        if rm_pending and s.snap.slot != "arbiter_rm_watcher":
+            for evn, pids in rm_pending:
+                surv = [p for p in pids if s.snap.kernel.get(p, ("g", None))[0] == "r" and not _sigkilled_before(V, s.n + 1, p)]
+                if surv:
+                    f.append({"sig": "survivor-after-rm", "step": s.n,
+                              "msg": "rm of %s has completed but its workers %r are still running" % (evn, surv)})
+            rm_pending = []
         # stopped stays stopped
         enabling = s.kind() == "start" or (s.kind() == "sig" and s.op[1] == "reload") or \
             s.cmd() in ("start", "restart", "reload", "add", "set", "reloadconfig") or \
